@@ -60,16 +60,27 @@ def err_code(mess: str) -> tuple[int, list[int]]:
     return 99, []
 
 
+_OPTS = [{n: bool(b >> i & 1) for i, n in enumerate(OPTION_NAMES)} for b in range(128)]
+_TK: list = []
+
+
 def opts_of_bits(bits: int) -> dict[str, bool]:
-    return {n: bool(bits >> i & 1) for i, n in enumerate(OPTION_NAMES)}
+    return _OPTS[bits]
+
+
+def _tk():
+    if not _TK:
+        from srctools.tokenizer import Tokenizer, TokenSyntaxError
+        _TK.extend([Tokenizer, TokenSyntaxError])
+    return _TK
 
 
 def impl_results(data: Any, bits: int, ncalls: int) -> list[int]:
     """Run the real Tokenizer `ncalls` times (or until it raises); encode as TokEnum.enc_results does.
     A foreign exception (anything that is not the tokenizer's TokenSyntaxError) is encoded as [4, ...] and never
     matches the model."""
-    from srctools.tokenizer import Tokenizer, TokenSyntaxError
-    tk = Tokenizer(data, None, **opts_of_bits(bits))
+    Tokenizer, TokenSyntaxError = _tk()
+    tk = Tokenizer(data, None, **_OPTS[bits])
     out: list[int] = []
     for _ in range(ncalls):
         try:
